@@ -40,3 +40,17 @@ From Rosmar Require Import KvExpiry.
 Theorem C05_expiry_is_a_removal : forall c : scase, wf_case c -> chk_expiry_kv chk_row_C05 (c, srun c) = true.
 Proof. exact C05_expiry_sound. Qed.
 Print Assumptions C05_expiry_is_a_removal.
+
+(* non-vacuity: a document with a user and a system xattr and an expiry; the timer fires after the deadline: the
+   history is well formed, the step checker has a removal to judge, and what is left is the tombstone with the
+   system xattr only *)
+Example C05_expiry_example :
+  let c := mkScase ["_default._default"] ["k1"] ["u1"]
+             [(mkSctx 1 100 60, SKv "_default._default" "k1" (KSetRaw 3000000000 false "x"));
+              (mkSctx 2 100 60, SKv "_default._default" "k1" (KSetXattrs [("u1", Some "1"); ("_sync", Some "2")]));
+              (mkSctx 3 3000000001 60, SExpire)] in
+  wf_case c
+  /\ map (fun o => map (fun e => (o_exists (snd e), option_map f_xattrs (o_dump (snd e)))) (sn_rows (os_snap o))) (srun c)
+     = [[(true, Some [])]; [(true, Some [("_sync", "2"); ("u1", "1")])]; [(false, Some [("_sync", "2")])]]
+  /\ chk_expiry_kv chk_row_C05 (c, srun c) = true.
+Proof. split; [repeat constructor | split; vm_compute; reflexivity]. Qed.
